@@ -269,6 +269,17 @@ def make_namespace(sched):
             self.maxsize = maxsize
             self.items = []
 
+        @property
+        def queue(self):
+            # the real class exposes its deque; code that peeks at the head (`q.queue[0]`) must find it here too
+            return self.items
+
+        @property
+        def mutex(self):
+            if getattr(self, '_mutex', None) is None:
+                self._mutex = Lock()  # an owned lock (defined below), so that `with q.mutex:` is a scheduling point
+            return self._mutex
+
         def _full(self):
             return 0 < self.maxsize <= len(self.items)
 
